@@ -288,3 +288,28 @@ Proof.
   - apply Z.eqb_eq in Ef. symmetry. exact Ef.
   - cbn [fst] in E. rewrite E0 in E. discriminate E.
 Qed.
+
+(* ---------------------------------------------------------------- a Repeated* reader only appends
+   whatever the input holds (valid, malformed, packed, unpacked, several records, an error half-way), the list a Repeated*
+   reader leaves behind is the list it found followed by new elements: nothing decoded earlier is lost or rewritten *)
+Lemma dec_packed_appends k : forall fuel packed acc, exists xs, fst (dec_packed fuel k packed acc) = acc ++ xs.
+Proof.
+  induction fuel as [|fuel IH]; intros packed acc; [exists []; cbn; rewrite app_nil_r; reflexivity|]. cbn [dec_packed].
+  destruct packed as [|b packed']; [exists []; cbn; rewrite app_nil_r; reflexivity|].
+  destruct (dec_payload k (b :: packed')) as [x xn]. destruct (xn <? 0); [exists []; cbn; rewrite app_nil_r; reflexivity|].
+  destruct (IH (skipn (Z.to_nat xn) (b :: packed')) (acc ++ [x])) as [xs E]. exists (x :: xs). rewrite E, <- app_assoc. reflexivity.
+Qed.
+Theorem repeated_reader_appends k f : forall fuel st vs, exists xs, snd (dec_repeated fuel k f st vs) = vs ++ xs.
+Proof.
+  induction fuel as [|fuel IH]; intros st vs; [exists []; cbn; rewrite app_nil_r; reflexivity|]. cbn [dec_repeated].
+  destruct (negb (f =? pf st)); [exists []; cbn; rewrite app_nil_r; reflexivity|].
+  destruct (is_scalar_wire k && (pw st =? BytesType)).
+  - destruct (consume_bytes (buf st)) as [packed n]. destruct (n <? 0); [exists []; cbn; rewrite app_nil_r; reflexivity|].
+    destruct (dec_packed_appends k (S (length packed)) packed vs) as [xs E].
+    destruct (dec_packed (S (length packed)) k packed vs) as [vs' ok]. cbn [fst] in E. subst vs'.
+    destruct ok; [|exists xs; reflexivity].
+    destruct (IH (next_field n st) (vs ++ xs)) as [ys E2]. exists (xs ++ ys). rewrite E2, app_assoc. reflexivity.
+  - destruct (pw st =? wire_of k); [|exists []; cbn; rewrite app_nil_r; reflexivity].
+    destruct (dec_payload k (buf st)) as [x n]. destruct (n <? 0); [exists []; cbn; rewrite app_nil_r; reflexivity|].
+    destruct (IH (next_field n st) (vs ++ [x])) as [ys E2]. exists (x :: ys). rewrite E2, <- app_assoc. reflexivity.
+Qed.
